@@ -9,6 +9,7 @@ package decoders
 import (
 	"bytes"
 	"fmt"
+	"os"
 	"runtime"
 	"strings"
 	"testing"
@@ -159,6 +160,17 @@ func site(stack string) string {
 		}
 	}
 	return "unknown"
+}
+
+func TestMain(m *testing.M) {
+	p := os.Getenv("VERIF_PROP")
+	if p == "" {
+		p = "C09"
+	}
+	simkit.Init(p)
+	code := m.Run()
+	simkit.Flush()
+	os.Exit(code)
 }
 
 func TestC09Decoders(t *testing.T) {
